@@ -26,18 +26,18 @@ func init() {
 		NotCovered: "parsing of identifiers from TLS server names, URL paths, userinfo and EDNS options (string work); " +
 			"the profile database's own lookups (C14); the password-hash comparison itself.",
 		Rules: map[string]string{
-			"C03-R1": "decision tree of Find equals the reference (channel precedence, deleted profile, authentication table)",
-			"C03-R2": "supportsDeviceID table",
-			"C03-R3": "who may construct *agd.DeviceResultOK",
-			"C03-R4": "only DeviceResultOK carries a profile/device; handleDeviceResult table",
-			"C03-R5": "deviceByExtID: create an automatic device only for an existing profile without that device",
-			"C03-R7": "authentication settings survive the backend conversion and the profile file cache (enabled iff present; DoH-only flag and hash copied whenever present)",
+			"C03-R1":  "decision tree of Find equals the reference (channel precedence, deleted profile, authentication table)",
+			"C03-R2":  "supportsDeviceID table",
+			"C03-R3":  "who may construct *agd.DeviceResultOK",
+			"C03-R4":  "only DeviceResultOK carries a profile/device; handleDeviceResult table",
+			"C03-R5":  "deviceByExtID: create an automatic device only for an existing profile without that device",
+			"C03-R7":  "authentication settings survive the backend conversion and the profile file cache (enabled iff present; DoH-only flag and hash copied whenever present)",
 			"C03-R10": "every field of a request-information object taken from a pool (the credentials, server name and device result it carries identify the client) is re-initialised on every path",
 			"C03-R11": "identifier extraction helpers: DoH takes the user name of the credentials before the URL path; the server name is used only as an immediate subdomain of a configured device domain; the EDNS scan stops at the first CPE-ID option; invalid identifiers are errors, not anonymous requests",
 			"C03-R12": "each server's middleware gets a device finder built for that very server",
-			"C03-R9": "profile database lookups by linked IP, dedicated IP, human ID and device ID re-check the current data (shared with C14-R4)",
-			"C03-R8": "a password authenticates only when the hash comparison returns no error",
-			"C03-R6": "identifier channel by transport (DoH: user info > URL path > server name; DoT/DoQ: server name; plain DNS: EDNS option)",
+			"C03-R9":  "profile database lookups by linked IP, dedicated IP, human ID and device ID re-check the current data (shared with C14-R4)",
+			"C03-R8":  "a password authenticates only when the hash comparison returns no error",
+			"C03-R6":  "identifier channel by transport (DoH: user info > URL path > server name; DoT/DoQ: server name; plain DNS: EDNS option)",
 		},
 		Assumptions: []string{"features read twice in a decision function are not modified in between"},
 	}})
